@@ -43,6 +43,10 @@ func main() {
 		runC16(*tier, *seed, out)
 	case "C07", "C08":
 		runCollator(id, *tier, *seed, out)
+	case "C10":
+		runC10(*tier, *seed, out)
+	case "C10child":
+		runC10child(int(*seed))
 	case "C11":
 		runC11(*tier, *seed, out)
 	case "C12":
